@@ -12,7 +12,7 @@ import (
 func init() {
 	register(&Prop{
 		ID:         "C10",
-		Decided:    "(1) the session key encoder is injective and NULL-distinct (keyenc); (2) end = last activity + timeout wherever lastActive is stored, a new session is [ts, ts+timeout), and the last activity of an open session only moves forward (an accepted out-of-order event does not rewind it, so last+timeout never falls behind the end); (3) a session is marked expired only under time >= its end, the late policy of Add discards only late rows, allowance entries expire only at end+AllowedLateness; (4) gap split: on the branch of Add where a session for the key already exists, the append to that session is unreachable when ts >= that session's end (otherwise the split depends on the expiry goroutine's schedule); (5) sessionMap/triggeredSessions/callback are accessed only under sw.mu; (6) a late row is appended only to a fired session of its own group, and the keys under which gap-closed and fired sessions are kept are numbered by a counter (unique per session). Also: every time.Now() in the window's Add (the processing-time stamp of the row) is executed with the window lock held exclusively, so no Trigger can deliver the stamped interval between the clock read and the placement (locks/clock-read-under-lock). Also: in the methods of SessionWindow no Unlock of mu lies between a call that decides which sessions are expired and a later removal from sessionMap (locks/expiry-decision-atomic): a concurrent Add cannot swap the session under a key between the decision and the firing. Also: in the window's methods that send on its output channel, every receive from that channel (drop-oldest eviction) is followed on every path by an increment of droppedCount (flow/evicted-result-counted).",
+		Decided:    "(1) the session key encoder is injective and NULL-distinct (keyenc); (2) end = last activity + timeout wherever lastActive is stored, a new session is [ts, ts+timeout), and the last activity of an open session only moves forward (an accepted out-of-order event does not rewind it, so last+timeout never falls behind the end); (3) a session is marked expired only under time >= its end, the late policy of Add discards only late rows, allowance entries expire only at end+AllowedLateness; (4) gap split: on the branch of Add where a session for the key already exists, the append to that session is unreachable when ts >= that session's end (otherwise the split depends on the expiry goroutine's schedule); (5) sessionMap/triggeredSessions/callback are accessed only under sw.mu; (6) a late row is appended only to a fired session of its own group, and the keys under which gap-closed and fired sessions are kept are numbered by a counter (unique per session). Also: every time.Now() in the window's Add (the processing-time stamp of the row) is executed with the window lock held exclusively, so no Trigger can deliver the stamped interval between the clock read and the placement (locks/clock-read-under-lock). Also: in the methods of SessionWindow no Unlock of mu lies between a call that decides which sessions are expired and a later removal from sessionMap (locks/expiry-decision-atomic): a concurrent Add cannot swap the session under a key between the decision and the firing. Also: in the window's methods that send on its output channel, every receive from that channel (drop-oldest eviction) is followed on every path by an increment of droppedCount (flow/evicted-result-counted). Also: sessions own their row buffers: every value stored into session.data is a fresh slice or grows from that session's own buffer, or - where buffers are recycled - no path connects the release of a session's buffer with the retention of that session in triggeredSessions/sessionMap (shape/session-buffer-own).",
 		NotDecided: "that each event is in exactly one reported session under all schedules; window_start as the earliest accepted timestamp under out-of-order input; aggregate values.",
 		Run:        runC10,
 	})
